@@ -269,6 +269,38 @@ def run(ctx):
                 ctx.bad(R_bypass, "rebuild_archive|early-ok", "%s:%d" % (ra.file, r_["ln"]), "success is returned before the build phase under %s" % (rend or "no condition"),
                         "for inputs satisfying the extra condition no target archive is written (and none is verified) although the rebuild reports Ok")
 
+    # option flags travel by name: a bool field of an options struct built from another options/arguments value is initialised from
+    # the same-named flag (two bools swap silently — the type checker cannot see it)
+    R_wire = ctx.rule("C07.option-flags-wired-by-name", "in every struct literal, a bool field initialised from a field of another value is initialised from the same-named field whenever a sibling field's name is what it reads instead", floor=12)
+
+    def _leaf(e):
+        e = hirq.strip(e)
+        while e.get("k") in ("cast", "try", "ref", "un") or (e.get("k") == "mcall" and e["m"] in ("clone", "into", "unwrap", "unwrap_or_default", "copied")):
+            nxt = e.get("e") or e.get("recv")
+            if nxt is None:
+                break
+            e = hirq.strip(nxt)
+        return e
+    for c_ in prog.all_workspace():
+        for f in c_.fn_list:
+            if not f.hir or f.kind == "Closure" or "::tests::" in f.path or "::test" in f.path:
+                continue
+            for x in hirq.walk(f.hir["body"]):
+                if x.get("k") != "struct" or len(x.get("fields") or []) < 2:
+                    continue
+                names = {fl[0] for fl in x["fields"]}
+                for nm, e in x["fields"]:
+                    lf = _leaf(e)
+                    if lf.get("k") != "field" or (c_.ty(lf.get("t")) or "") != "bool":
+                        continue
+                    inst = {"fn": f.path.split("::")[-1], "struct": (x["res"].get("def") or "?").split("::")[-1], "field": nm, "from": hirq.render(lf)[:40]}
+                    if lf["name"] == nm or lf["name"] not in names:
+                        ctx.ok(R_wire, inst) if len(ctx.samples) < 300 else (ctx.rules[R_wire].__setitem__("obligations", ctx.rules[R_wire]["obligations"] + 1), ctx.rules[R_wire].__setitem__("discharged", ctx.rules[R_wire]["discharged"] + 1))
+                    else:
+                        ctx.bad(R_wire, "%s|%s.%s<-%s" % (f.path.split("::")[-1], inst["struct"], nm, lf["name"]), "%s:%d" % (f.file, e.get("ln") or x.get("ln") or 0),
+                                "`%s.%s` is initialised from `%s`, the flag that belongs to its sibling field `%s`" % (inst["struct"], nm, hirq.render(lf)[:50], lf["name"]),
+                                "the user's option is applied to the wrong behaviour: files are skipped (or kept) that the options given do not exclude (or exclude)")
+
     sig = mpq.fns.get(F + "is_signature_file")
     if sig is not None and sig.hir:
         lits = sorted({hirq.lit_str(x) or x["v"].get("str") for x in hirq.walk(sig.hir["body"]) if x.get("k") == "lit" and "str" in x["v"]})
